@@ -135,6 +135,24 @@ func c09Child(args []string) int {
 	stride := fs.Int64("stride", 1, "")
 	_ = fs.Parse(args)
 	signal.Ignore(syscall.SIGXFSZ)
+	if *mode == "killone" {
+		// one interrupted update in a process that is expected to be KILLED by the tracer inside the
+		// store write (strace injects SIGKILL on the write that follows the cut one): no clean-up code runs.
+		run := newTM(*dir)
+		if err := run.Load(); err != nil {
+			fmt.Println("LOADERR " + err.Error())
+			return 0
+		}
+		_ = setLimit(*from)
+		err := run.UpdateTargets(&shard.UpdateTargetsRequest{Targets: c09Assignment(*nShape)})
+		_ = setLimit(-1)
+		if err != nil {
+			fmt.Println("SURVIVED-ERR " + err.Error())
+		} else {
+			fmt.Println("SURVIVED-ACK " + stateJSON(run.TargetsInfo()))
+		}
+		return 0
+	}
 	out := bufio.NewWriter(os.Stdout)
 	defer out.Flush()
 	store := filepath.Join(*dir, "kvass-shard.json")
@@ -297,6 +315,18 @@ func c09Cases(tier string) []c09Case {
 		}
 		cs = append(cs, c09Case{Kind: "sweep", P: p, N: p, Mode: "oldname", From: 0, To: -1, Stride: st})
 	}
+	// process KILLED inside the store write at byte N (strace injects SIGKILL), then several restarts and a follow-up update
+	killPairs := [][2]string{{"one", "fifty"}, {"fifty", "one"}, {"escape", "states"}, {"empty", "fifty"}}
+	points := int64(48) // offsets per pair, spread evenly over the new file's length
+	if tier == "thorough" {
+		killPairs = append(killPairs, [2]string{"states", "jobmove"}, [2]string{"one", "escape"}, [2]string{"fifty", "empty"}, [2]string{"one", "big"})
+		points = 400
+	}
+	for _, pr := range killPairs {
+		for from := int64(0); from < points; from += 8 {
+			cs = append(cs, c09Case{Kind: "killat", P: pr[0], N: pr[1], From: from, To: from + 7, Stride: points})
+		}
+	}
 	nk := 6
 	if tier == "thorough" {
 		nk = 60
@@ -313,6 +343,9 @@ func runC09(w *core.WorkerCtx, idx int) *core.CaseResult {
 	res := &core.CaseResult{}
 	if c.Kind == "kill" {
 		return runC09Kill(w, idx, c)
+	}
+	if c.Kind == "killat" {
+		return runC09KillAt(w, idx, c)
 	}
 	dir := filepath.Join(w.Scratch, fmt.Sprintf("store-%d", idx))
 	defer os.RemoveAll(dir)
@@ -411,7 +444,7 @@ func init() {
 		Level: "fault_enumeration",
 		Rule: "fault = the write of the store file stops after exactly N bytes (RLIMIT_FSIZE=N in a child process running the real TargetsManager.UpdateTargets / Load; the kernel cuts the write, which leaves the disk as a kill or a full disk at byte N would); " +
 			"enumerated over ordered pairs (previous, new) of assignment shapes {empty, one, fifty, escape-heavy labels, mixed states, job move, other-one, 300 targets} x every offset N in 0..len(file)+2 (thorough: all pairs, stride 1; quick: stride 1 for four pairs and for the old-file-name path, stride 7/211 otherwise), " +
-			"plus the old-file-name fall-back interrupted while it is first rewritten, plus SIGKILL of the real `kvass sidecar` binary during updates; after each fault a fresh manager loads the directory; " +
+			"plus the old-file-name fall-back interrupted while it is first rewritten, plus the process KILLED inside the store write at byte N (strace injects SIGKILL on the write() that follows the cut one, so no clean-up code runs; 4 pairs, thorough 8, strided offsets) followed by three restarts and an acknowledged follow-up update, plus SIGKILL of the real `kvass sidecar` binary during updates; after each fault a fresh manager loads the directory (after a cut write: twice, then a follow-up update and another restart); " +
 			"non-trivial = a sweep chunk with at least one offset executed; distinct = (mode, previous, new, offset range)",
 		Assumptions: []string{
 			"a write cut by RLIMIT_FSIZE after N bytes leaves the same bytes on disk as a process killed / a disk filling up at that byte; later fsync/power-loss behaviour of the file system is out of scope",
@@ -423,4 +456,127 @@ func init() {
 		MinNontrivial: 20,
 		Exhaustive:    func(tier string) bool { return tier == "thorough" },
 	})
+}
+
+// runC09KillAt: the updating process is killed by the tracer inside the store write.
+func runC09KillAt(w *core.WorkerCtx, idx int, c c09Case) *core.CaseResult {
+	res := &core.CaseResult{Sig: fmt.Sprintf("killat|%s>%s|%d-%d/%d", c.P, c.N, c.From, c.To, c.Stride)}
+	if _, err := exec.LookPath("strace"); err != nil {
+		res.Inconcl = "strace not available: " + err.Error()
+		return res
+	}
+	P, N, X := c09Assignment(c.P), c09Assignment(c.N), c09Assignment("other-one")
+	var firstBad string
+	// length of the store a complete write of the new assignment produces
+	probeDir := filepath.Join(w.Scratch, fmt.Sprintf("killat-probe-%d", idx))
+	pt := newTM(probeDir)
+	_ = pt.Load()
+	_ = pt.UpdateTargets(&shard.UpdateTargetsRequest{Targets: N})
+	full := int64(0)
+	if st, err := os.Stat(filepath.Join(probeDir, "kvass-shard.json")); err == nil {
+		full = st.Size()
+	}
+	os.RemoveAll(probeDir)
+	for k := c.From; k <= c.To; k++ {
+		// point k of c.Stride evenly spread offsets in 1..full-1
+		lim := 1 + k*(full-2)/c.Stride
+		if full < 3 {
+			lim = 1
+		}
+		dir := filepath.Join(w.Scratch, fmt.Sprintf("killat-%d-%d", idx, lim))
+		_ = os.RemoveAll(dir)
+		setup := newTM(dir)
+		if err := setup.Load(); err != nil {
+			res.Inconcl = "setup load: " + err.Error()
+			break
+		}
+		if err := setup.UpdateTargets(&shard.UpdateTargetsRequest{Targets: P}); err != nil {
+			res.Inconcl = "setup update: " + err.Error()
+			break
+		}
+		pState := stateJSON(setup.TargetsInfo())
+		store := filepath.Join(dir, "kvass-shard.json")
+		cmd := exec.Command("strace", "-f", "-o", "/dev/null", "-P", store, "-P", store+".tmp", "-e", "trace=write", "-e", "inject=write:signal=KILL:when=3",
+			w.Self, "c09child", "--mode", "killone", "--dir", dir, "--n", c.N, "--from", fmt.Sprint(lim))
+		out, _ := cmd.Output()
+		so := strings.TrimSpace(string(out))
+		killed := !strings.HasPrefix(so, "SURVIVED") && !strings.HasPrefix(so, "LOADERR")
+		acked := strings.HasPrefix(so, "SURVIVED-ACK")
+		if strings.HasPrefix(so, "LOADERR") {
+			res.Inconcl = "child could not load the prepared store: " + so
+			os.RemoveAll(dir)
+			break
+		}
+		res.Execs++
+		res.AddStat("killat_offsets", 1)
+		if killed {
+			res.AddStat("killat_killed_inside_write", 1)
+		} else if acked {
+			res.AddStat("killat_update_completed", 1)
+		} else {
+			res.AddStat("killat_write_error_returned", 1)
+		}
+		// three restarts in a row, then an acknowledged update and one more restart
+		var first string
+		bad := ""
+		for k := 0; k < 3 && bad == ""; k++ {
+			f := newTM(dir)
+			if err := f.Load(); err != nil {
+				bad = fmt.Sprintf("start-fails: restart %d after the kill: %v", k+1, err)
+				break
+			}
+			st := stateJSON(f.TargetsInfo())
+			if k == 0 {
+				first = st
+				isP := st == pState
+				isN := sameTargets(st, stateJSON(sidecarInfo(N)))
+				switch {
+				case acked && !isN:
+					bad = "acknowledged-update-lost: resumed " + clipS(st, 200)
+				case !isP && !isN:
+					bad = "resumes-neither: resumed " + clipS(st, 200) + " previous " + clipS(pState, 120)
+				case isN:
+					res.AddStat("resumed_N", 1)
+				default:
+					res.AddStat("resumed_P", 1)
+				}
+			} else if st != first {
+				bad = fmt.Sprintf("resumed-state-changes: restart %d resumed %s, restart 1 resumed %s", k+1, clipS(st, 150), clipS(first, 150))
+			}
+			if bad == "" && k == 2 {
+				if err := f.UpdateTargets(&shard.UpdateTargetsRequest{Targets: X}); err != nil {
+					bad = "follow-up-update-fails: " + err.Error()
+					break
+				}
+				want := stateJSON(f.TargetsInfo())
+				g := newTM(dir)
+				if err := g.Load(); err != nil {
+					bad = "start-fails: restart after the follow-up update: " + err.Error()
+				} else if got := stateJSON(g.TargetsInfo()); got != want {
+					bad = "acknowledged-update-lost: follow-up update acknowledged, resumed " + clipS(got, 200)
+				}
+			}
+		}
+		os.RemoveAll(dir)
+		if bad != "" {
+			kind := strings.SplitN(bad, ":", 2)[0]
+			res.Violate("C09/killat/"+kind, "previous=%s new=%s: process killed inside the store write after %d bytes (killed %v, acknowledged %v): %s", c.P, c.N, lim, killed, acked, bad)
+			if firstBad == "" {
+				firstBad = fmt.Sprintf("limit %d: %s", lim, bad)
+			}
+		}
+	}
+	res.Nontrivial = res.Execs > 0
+	res.Viol = dedupeV(res.Viol)
+	if firstBad != "" {
+		res.Witness = map[string]interface{}{"case": c, "first_failing": firstBad}
+	}
+	if idx%5 == 0 {
+		res.Sample = map[string]interface{}{"case": c, "observed": res.Stats}
+	}
+	return res
+}
+
+func sidecarInfo(m map[string][]*target.Target) sidecar.TargetsInfo {
+	return sidecar.TargetsInfo{Targets: m}
 }
